@@ -183,10 +183,8 @@ pub fn history_as_expected(pre: &Pre, p: &Post) -> bool {
 /// handler's view is compared on the command name and the *raw* argument tokens'
 /// total length, and the item-by-item comparison is done by the same harness in the
 /// build without `help` and by `process_input_routing` (all features, 6 bytes).
-#[kani::proof]
-#[kani::unwind(8)]
-fn key_enter() {
-    let pre = any_pre();
+fn key_enter_body(valid: usize) {
+    let pre = any_pre_valid(valid);
     let parsed = parse_line::<N, N1>(&pre.ebuf, pre.valid);
     kani::assume(!parsed.open && !parsed.help_open);
     let mut cli = build(&pre, TailSink::<4>::new());
@@ -221,11 +219,71 @@ fn key_enter() {
     let w = cli.__verif_writer();
     assert!(w.lfs >= 1 && w.tail_is(PROMPTS[pre.prompt]), "C01: one fresh prompt on a new row");
     assert!(w.pending == 0, "C15: flushed");
-    kani::cover!(N < 3 || (dispatch && parsed.ntok == 2), "command with one argument");
-    kani::cover!(N < 1 || (!dispatch && pre.valid > 0), "blank line is not dispatched");
-    kani::cover!(N < 2 || (dispatch && parsed.name_len == 0), "empty quoted command name");
-    kani::cover!(N < 4 || cfg!(not(feature = "help")) || help, "help request answered by the library");
+    kani::cover!(valid < 3 || (dispatch && parsed.ntok == 2), "command with one argument");
+    kani::cover!(valid < 1 || (!dispatch && pre.valid > 0), "blank line is not dispatched");
+    kani::cover!(valid < 2 || (dispatch && parsed.name_len == 0), "empty quoted command name");
+    kani::cover!(valid < 4 || cfg!(not(feature = "help")) || help, "help request answered by the library");
+    kani::cover!(valid > 0 || !dispatch, "empty line");
 }
+
+macro_rules! enter_len {
+    ($name:ident, $v:expr) => {
+        #[kani::proof]
+        #[kani::unwind(8)]
+        fn $name() {
+            key_enter_body($v);
+        }
+    };
+}
+/// Enter from an arbitrary CliInv state, history side only: whatever the history
+/// holds, exactly the submitted text is recorded (dedupe / eviction / rejects as in
+/// C10), the line is cleared and CliInv holds again.  The handler's view is the
+/// subject of `key_enter_v*` (run with a zero-sized history buffer so that the two
+/// halves of Enter fit into memory separately).
+fn key_enter_history_body(valid: usize) {
+    let pre = any_pre_valid(valid);
+    let mut cli = build(&pre, CountSink::new());
+    let mut calls = 0usize;
+    let r = {
+        let mut p = RawCommand::processor(|_h: &mut CliHandle<'_, CountSink, Infallible>, _c: RawCommand<'_>| {
+            calls += 1;
+            Ok(())
+        });
+        cli.__verif_on_control::<RawCommand<'_>, _>(ControlInput::Enter, &mut p)
+    };
+    assert!(r.is_ok());
+    assert!(calls <= 1, "C01: at most one dispatch");
+    let p = post(&cli);
+    assert!(p.valid == 0 && p.cursor == 0, "C01: line empty afterwards");
+    assert!(history_as_expected(&pre, &p), "C10: Enter records exactly the submitted text");
+    assert!(post_inv(&p));
+    assert!(cli.__verif_writer().pending == 0, "C15: flushed");
+    kani::cover!(H < 2 || valid != 1 || (pre.hused == 0 && p.hused == 2), "recorded into an empty history");
+    kani::cover!(H < 2 || valid != 1 || (pre.hused == 2 && p.hused == 2 && p.hbuf[0] != pre.hbuf[0]), "older entry evicted");
+    kani::cover!(H < 2 || valid != 1 || (pre.hused == 2 && p.hbuf[0] == pre.hbuf[0]), "duplicate of the newest");
+    kani::cover!(valid != 2 || p.hused == pre.hused, "too long to be recorded");
+}
+
+macro_rules! enter_hist {
+    ($name:ident, $v:expr) => {
+        #[kani::proof]
+        #[kani::unwind(8)]
+        fn $name() {
+            key_enter_history_body($v);
+        }
+    };
+}
+enter_hist!(key_enter_history_v1, 1);
+enter_hist!(key_enter_history_v2, 2);
+
+enter_len!(key_enter_v0, 0);
+enter_len!(key_enter_v1, 1);
+enter_len!(key_enter_v2, 2);
+enter_len!(key_enter_v3, 3);
+#[cfg(any(vp_n4, vp_n5))]
+enter_len!(key_enter_v4, 4);
+#[cfg(vp_n5)]
+enter_len!(key_enter_v5, 5);
 
 /// Tab at Cli level with the raw command set (only the built-in `help` can match).
 #[kani::proof]
@@ -330,7 +388,7 @@ fn process_input_routing() {
 #[kani::proof]
 #[kani::unwind(8)]
 fn key_enter_twin() {
-    let pre = any_pre();
+    let pre = any_pre_valid(1);
     let mut cli = build(&pre, CountSink::new());
     let (r, seen) = press(&mut cli, Key::Enter);
     assert!(seen.calls == 0, "twin: must be reported as FAILED");
